@@ -211,6 +211,7 @@ func c20Answers(vm *VM, name string) ([]byte, string) {
 // runs on it symbolically) plus concrete letters.
 //   0 clause orders and declarations, no fault     1 one fault of each kind at each position
 //   2 multifile/replace on top of an earlier load  3 initialization goals and directives
+//   4 discontiguous predicate with runs of 1..5 / 1..3 / 1..2 clauses
 func VH_C20(vm *VM, inst int) {
 	// earlier load (concrete): defines p/1, q/1 and multifile m/1
 	err0 := vm.Compile(context.Background(), ":- multifile(m/1). p(z). q(y). q(z). m(z).")
@@ -283,6 +284,26 @@ func VH_C20(vm *VM, inst int) {
 		case 2:
 			items = append(items, c20Item{kind: 4, text: "q(."})
 		}
+	}
+	if inst == 4 {
+		// runs of several lengths: q x n1, p x m, q x n2 (q discontiguous), then r
+		items = append(items, decl("discontiguous", "q"))
+		n1, m, n2 := 1+choice("run1", 5), 1+choice("mid", 3), 1+choice("run2", 2)
+		letters := []byte{'a', 'b', 'c', 'd', 'e', 'f', 'g'}
+		for i := 0; i < n1; i++ {
+			items = append(items, cl("q", letters[i]))
+		}
+		for i := 0; i < m; i++ {
+			c := letters[i]
+			if i == 0 {
+				c = k
+			}
+			items = append(items, cl("p", c))
+		}
+		for i := 0; i < n2; i++ {
+			items = append(items, cl("q", letters[5+i]))
+		}
+		items = append(items, cl("r", 0))
 	}
 	text := c20Text(items)
 	note("text", text)
